@@ -168,6 +168,7 @@ func runC20(t *testing.T, tape *sim.Tape, tier string) *Outcome {
 		pos := tape.Draw(len(c.stream), "corruptpos")
 		c.stream[pos] = []byte{'x', '9', '-', '\r', '$'}[tape.Draw(5, "corruptbyte")]
 		o.stat("corrupted_frames", 1)
+		c.methodOnly = true
 	}
 	c.start()
 	c.P.Ends[1].WriteHook = func(p []byte) {
